@@ -21,6 +21,9 @@ type mapDriver struct {
 	lossy map[string]bool
 	// family maps a key to the id of its hash-collision family (only set by C09).
 	family map[string]int
+	// evictable: a count limit is configured, cleanupCycle may evict (C18 accounts for evictions separately)
+	evictable bool
+	evicted   float64
 	// counters for C18 (model side)
 	cnt modelCounts
 }
@@ -344,4 +347,28 @@ func (d *mapDriver) walkAbort(k int) {
 	} else if len(d.lossy) == 0 {
 		d.c.Assert(err == nil && n == len(d.ref.m) && calls == n, "walk-count", "Walk over %d entries returned (%d, %v) with %d callbacks", len(d.ref.m), n, err, calls)
 	}
+}
+
+// cleanupCycle runs one synchronous janitor cycle; entries it evicted are dropped from the model
+// (which ones go is C12's subject, here only the accounting matters).
+func (d *mapDriver) cleanupCycle() {
+	before := len(d.ref.m)
+	d.be.Cleanup()
+
+	present := map[string]bool{}
+	_, _ = d.be.Walk(func(k []byte, _ interface{}, _ time.Time) error {
+		present[string(k)] = true
+
+		return nil
+	})
+
+	for k := range d.ref.m {
+		if !present[k] {
+			delete(d.ref.m, k)
+			d.evicted++
+		}
+	}
+
+	d.c.Tracef("cleanup cycle: %d -> %d entries", before, len(d.ref.m))
+	d.c.Class("cleanup-cycle")
 }
